@@ -160,12 +160,12 @@ def usage(st_, ci, c):
 
 
 def bmf_class(st_):
-    """Root-cause class for an invalid BMF allocation: the solver compares penalty-scaled rate estimates with
-    the real bounds, so a bounded variable in a system whose penalties differ from 1 is the known weak spot."""
+    """Root-cause class of an invalid BMF allocation: the solver works on penalty-scaled consumptions (maxA = weight x penalty)
+    but compares them with the real bounds and with the capacity of non-shared (fat-pipe) resources, so any system whose
+    penalties differ from 1 is the known weak spot (a bounded variable above its bound, a fat-pipe above its capacity)."""
     act = [u for u in st_["var"] if enabled(u) and consuming(u)]
     pens = {u["sg_pen"] for u in act}
-    bounded = any(u["bound"] > 0 for u in act)
-    return "bounded-var+non-unit-penalties" if (bounded and pens != {1.0}) else "other"
+    return "non-unit-penalties" if pens != {1.0} else "unit-penalties"
 
 
 def check_capacity(st_, solver, oc, where):
